@@ -7,6 +7,9 @@ from .lib_cast import is_narrowing, int_range, param_of, dominating_bounds, domi
 from .lib_range import path_forces_err, decode_cond
 from .tyutil import result_parts
 
+from .lib_mpt import path_str
+from .lib_expr import expr as lexpr, show as lshow
+
 PROPERTY = "C17"
 TECHNIQUE = ("CASTCHECK + PARAMCHECK (length / byte-width arguments compared with the receiver's own) + dominance "
              "ORDER of verification before use in the entry points + ERRDISC on VerifyError in the encode entry points")
@@ -366,4 +369,68 @@ def run(facts, tier, ctx):
         eb.fail(Finding("ENTRY/non-empty-block", fe.id, "undecided", 0, fe.loc(), str(e)))
     eb.require_floor(1, "frame entry point")
     out.append(eb)
+    out.append(rule_scan(facts))
     return out
+
+
+def rule_scan(facts):
+    """SCAN/samples: `verify_samples(..)?` rejects an out-of-width sample only if the scan behind it is unconditional: in
+    FrameBuf::verify_samples every path to an Ok return goes through the per-channel loop, and inside the loop the next
+    iteration (or the exit) is reached only after a scan of that channel's samples has been compared with both bounds."""
+    sc = RuleResult("SCAN/samples", "FrameBuf::verify_samples scans every channel on every Ok path")
+    b = facts.bodies.get("source::FrameBuf::verify_samples")
+    if b is None:
+        sc.fail(Finding("SCAN/samples", "source::FrameBuf::verify_samples", "anchor-missing", 0, "", "verify_samples not found"))
+        return sc
+    # loop header: an Iterator::next call (or range step) that lies on a cycle
+    heads = []
+    for bi, t in b.calls():
+        fn = t.get("fn") or {}
+        if fn.get("name") == "next" and fn.get("trait") == "std::iter::Iterator" and bi in b.reachable_after(bi):
+            heads.append(bi)
+    if not heads:
+        sc.fail(Finding("SCAN/samples", b.id, "no-channel-loop", 0, b.loc(), "no loop found in verify_samples"))
+        return sc
+    # Ok returns: blocks assigning Ok to the return place
+    oks = [bi for bi, si, s in b.iter_stmts() if s["k"] == "assign" and s["dst"]["l"] == 0 and not s["dst"]["p"]
+           and s["rv"]["k"] == "agg" and s["rv"].get("variant") == "Ok"]
+    if not oks:
+        oks = list(b.returns())
+    for ob in oks:
+        p = b.find_path(0, {ob}, removed=set(heads))
+        if p is None:
+            sc.ok({"function": b.id, "ok_return": b.loc(ob, "term"), "verdict": "passes the channel loop"})
+        else:
+            sc.fail(Finding("SCAN/samples", b.id, "ok-without-scan", 0, b.loc(ob, "term"),
+                            "verify_samples can return Ok without entering the per-channel scan: %s. Samples outside the "
+                            "declared width are then encoded (truncated) instead of being refused"
+                            % path_str(b, p)))
+    # inside the loop: from the loop body back to the header only through a scanner call on the channel's samples and two
+    # comparisons
+    scans = []
+    for bi, t in b.calls():
+        fn = t.get("fn") or {}
+        args = t.get("args") or []
+        if not args:
+            continue
+        txt = lshow(lexpr(b, args[0]))
+        if "channel_slice" in txt or ".samples" in txt:
+            if fn.get("name") not in ("channel_slice", "channels", "len", "deref", "index"):
+                scans.append(bi)
+    for h in heads:
+        body_succ = [x for x in b.succ[h] if not b.is_cleanup(x)]
+        p = None
+        for x in body_succ:
+            # skip the path that leaves the loop at once (iterator exhausted)
+            q = b.find_path(x, {h}, removed=set(scans))
+            if q is not None and len(q) > 1:
+                p = q
+        if scans and p is None:
+            sc.ok({"function": b.id, "loop": b.loc(h, "term"), "scanners": [b.loc(x, "term") for x in scans],
+                   "verdict": "every iteration scans the channel"})
+        else:
+            sc.fail(Finding("SCAN/samples", b.id, "iteration-without-scan", 0, b.loc(h, "term"),
+                            "an iteration of the channel loop can finish without scanning the channel's samples%s"
+                            % (": " + path_str(b, p) if p else " (no scan of channel_slice(..) found)")))
+    sc.require_floor(2, "scan obligations")
+    return sc
